@@ -19,7 +19,8 @@ RULE = (
     "plus generated integers) compared with an integer-pair reference through get_protocol and through a live gateway fed a version reply "
     "or a gateway presentation. hist: version unknown at start, history of version replies / gateway presentations (release strings and "
     "rejectable texts) mixed with other traffic; after every step reported version and active rules must agree (None => 1.4; release string => "
-    "reference), a rejected report may not be stored, and the rules in force are probed behaviourally at the end with edge type numbers. "
+    "reference), a rejected report may not be stored, and the rules in force are probed behaviourally at the end with edge type numbers and "
+    "with a message from an unknown node (2.x asks it to present itself, 1.x does not); histories run on a fresh listen() per line or on one long-lived listen() generator. "
     "gate: per version (pinned or learned from a x.y.z reply) every internal type -3..40 and stream type -2..8 plus huge ints on a fresh "
     "gateway: UnsupportedMessageError iff outside the spec table spelled in the harness. Non-trivial = 3/4-component version, or history "
     "with >=2 different reports or a rejected report after an accepted one, or a gate probe within 1 of a table edge."
@@ -100,8 +101,8 @@ def _hist_ops():
 
 def strategy(tier: str):
     return st.one_of(
-        st.fixed_dictionaries({"kind": st.just("hist"), "ops": _hist_ops()}),
-        st.fixed_dictionaries({"kind": st.just("hist"), "ops": _hist_ops()}),
+        st.fixed_dictionaries({"kind": st.just("hist"), "listen_mode": st.sampled_from(("fresh", "persistent")), "ops": _hist_ops()}),
+        st.fixed_dictionaries({"kind": st.just("hist"), "listen_mode": st.sampled_from(("fresh", "persistent")), "ops": _hist_ops()}),
         st.fixed_dictionaries(
             {"kind": st.just("map"), "text": st.one_of(release_text, common_release), "via": st.sampled_from(("get_protocol", "reply", "presentation"))}
         ),
@@ -201,9 +202,14 @@ def _run_hist(case: dict) -> Outcome:
 
     async def go() -> Outcome | None:
         gateway, _t = env.make_gateway(None)
+        listener = env.Listener(gateway) if case.get("listen_mode") == "persistent" else None
+
+        async def deliver(line: str):
+            return await (listener.next(line) if listener else env.rx(gateway, line))
+
         for idx, op in enumerate(ops):
             before = gateway.protocol_version
-            status, value = await env.rx(gateway, op[1])
+            status, value = await deliver(op[1])
             reported, rules = gateway.protocol_version, gateway.protocol.VERSION
             text = _report_text(op[1])
             where = f"step {idx} {op!r}"
@@ -232,8 +238,14 @@ def _run_hist(case: dict) -> Outcome:
         if want is None:
             return None
         env.install_registry(gateway.nodes, {"1": {}})
+        # ... and of the handlers in force: a 2.x controller asks an unknown node to present itself, a 1.x one does not
+        before_writes = len(_t.writes)
+        await deliver("77;1;1;0;0;1\n")
+        asked = any(line == "77;255;3;0;19;\n" for _s, line in _t.writes[before_writes:])
+        if asked != want.startswith("2"):
+            return fail(f"handlers-in-force:{want}", f"after history, version {reported!r} (rules {want}): set from unknown node 77 {'wrote' if asked else 'did not write'} a presentation request")
         for cmd, mtype in PROBES:
-            status, value = await env.rx(gateway, f"1;255;{cmd};0;{mtype};1\n")
+            status, value = await deliver(f"1;255;{cmd};0;{mtype};1\n")
             outcome = classify(status, value)
             if _supported(want, cmd, mtype) and outcome == "unsupported":
                 return fail(f"rules-in-force:refuses:{want}", f"after history, version {reported!r}: type {cmd}/{mtype} exists in {want} but is refused")
